@@ -23,8 +23,8 @@
 From Coq Require Import NArith List Bool Arith.
 Import ListNotations.
 
-Definition batch := list N.            (* the row ids of one ingestion request for this table *)
-Definition pid := nat.                 (* partition id *)
+Notation batch := (list N) (only parsing).   (* the row ids of one ingestion request for this table *)
+Notation pid := nat (only parsing).          (* partition id *)
 
 Inductive thr := TI (n : nat) | TF | TQ (n : nat).
 
